@@ -1,4 +1,8 @@
 import LoguruModel.Exc.Lemmas
+import LoguruModel.Exc.FramesLemmas
+import LoguruModel.Exc.Closing
+import LoguruModel.Exc.SeenLemmas
+import LoguruModel.Exc.GroupLemmas
 /-
 C13 – property theorems (DESIGN §4 C13).  Statements are about `Exc.fmt`/`Exc.formatException`
 defined over the constants REGENERATED from `/repo/loguru/_better_exceptions.py` (`Exc.Gen`).
@@ -348,5 +352,226 @@ theorem immediate_caller_only_loses_frame (own p : Frame) (ho : own.hidden = tru
   simp [visible, ho, hp]
 
 theorem parent_walk_skips_hidden : Gen.parentWalkSkipsHidden = true := by decide
+
+/-! ### `_extract_frames` statement by statement, over the REGENERATED decision kernels and limit slice -/
+
+/-- **extract_loop_refines**: the statement-level transcription of `_extract_frames` (`Exc.extractLoop`: early
+return, `infos.insert(0, …)` walk with its `break`, `infos[-1]` marking, traceback loop, limit slice – every test
+and the slice regenerated from the source as `Gen.earlyReturn`, `Gen.walkCond`, `Gen.walkBreaks`, `Gen.markCond`,
+`Gen.limitApplies`, `Gen.limitSlice`) computes exactly the list-level model the other theorems are about – for
+every mode, entry point, `tracebacklimit`, traceback and caller chain.  An edit of one of those tests or of the
+slice expression in the source breaks this proof. -/
+theorem extract_loop_refines (o : Opts) (isFirst fromDec : Bool) (tb parents : List Frame) :
+    extractLoop o isFirst fromDec tb parents = extractFrames o isFirst fromDec tb parents :=
+  extractLoop_eq o isFirst fromDec tb parents
+
+/-- hence the code's frames are the property's frames (`frames_are_traceback_frames_in_order` for the loop) -/
+theorem loop_frames_are_traceback_frames_in_order (o : Opts) (isFirst fromDec : Bool) (tb parents : List Frame) :
+    (extractLoop o isFirst fromDec tb parents).map (·.fr) =
+      if tb.isEmpty || limitBlocks o.limit then []
+      else applyLimit o.limit (callerFrames o isFirst fromDec parents ++ visible tb) := by
+  rw [extract_loop_refines, frames_are_traceback_frames_in_order]
+
+/-- **tracebacklimit_keeps_last_frames**: a positive `sys.tracebacklimit = k` shows the LAST `min k n` of the `n`
+entries the unlimited report shows, in the same order and with the same marks (a suffix – the frames nearest to
+the error, as the interpreter does); `k ≤ 0` shows none -/
+theorem tracebacklimit_keeps_last_frames (o : Opts) (k : Int) (hl : o.limit = some k) (isFirst fromDec : Bool)
+    (tb parents : List Frame) :
+    let all := extractLoop { o with limit := none } isFirst fromDec tb parents
+    let shown := extractLoop o isFirst fromDec tb parents
+    (0 < k → shown <:+ all ∧ shown.length = min k.toNat all.length) ∧ (k ≤ 0 → shown = []) := by
+  simp only [extract_loop_refines]
+  cases tb with
+  | nil => simp [extractFrames]
+  | cons t0 rest =>
+    rw [extractFrames_cons, extractFrames_cons]
+    have hspec : infosSpec { o with limit := none } isFirst fromDec t0 rest parents =
+        infosSpec o isFirst fromDec t0 rest parents := rfl
+    simp only [hl, hspec, limitBlocks, applyLimit]
+    constructor
+    · intro hk
+      have : ¬ k ≤ 0 := by omega
+      simp only [this, decide_false, Bool.false_eq_true, if_false]
+      exact ⟨List.drop_suffix _ _, by rw [List.length_drop]; omega⟩
+    · intro hk
+      simp [hk]
+
+/-- non-vacuity: limit 1 over two traceback frames keeps the last one -/
+example :
+    let f (n : Int) : Frame := { info := ⟨"f.py".toList, n, "g".toList, []⟩, hidden := false, vals := [] }
+    (extractLoop { backtrace := false, diagnose := false, colorize := false, limit := some 1, maxLen := 128 }
+      true false [f 1, f 2] []).map (·.fr.info.line) = [2] := by decide
+
+/-- **catch_point_is_the_catching_frame**: with `backtrace` on, for the logged exception whose first traceback
+frame (the frame in which it was caught) is not loguru's own, the report shows the callers outermost first,
+unmarked, then THAT frame carrying the catch-point mark (exactly one mark), then the deeper traceback frames,
+unmarked – whatever the entry point -/
+theorem catch_point_is_the_catching_frame (o : Opts) (hb : o.backtrace = true) (hl : o.limit = none) (fromDec : Bool)
+    (t0 : Frame) (ht : t0.hidden = false) (rest parents : List Frame) :
+    extractLoop o true fromDec (t0 :: rest) parents =
+      unmarked (visible parents).reverse ++ [⟨t0, true⟩] ++ unmarked (visible rest) := by
+  rw [extract_loop_refines, extractFrames_cons]
+  have hv : visible [t0] = [t0] := by simp [visible, ht]
+  simp [hl, limitBlocks, applyLimit, infosSpec, hb, hv, markLast_snoc]
+
+/-- non-vacuity / the `>` line of a report: one caller, the catching frame, one deeper frame -/
+example :
+    let f (n : Int) (h : Bool) : Frame := { info := ⟨"f.py".toList, n, "g".toList, []⟩, hidden := h, vals := [] }
+    (extractLoop { backtrace := true, diagnose := false, colorize := false, limit := none, maxLen := 128 }
+      true true [f 1 false, f 2 true, f 3 false] [f 10 true, f 11 false]).map (fun s => (s.fr.info.line, s.mark)) =
+      [(11, false), (1, true), (3, false)] := by decide
+
+/-! ### what the `seen` set does -/
+
+/-- **each_exception_rendered_once**: on heaps without exception groups – any cause/context graph, cycles and
+self-references included – no exception gets its closing lines twice in a report (first-seen wins) -/
+theorem each_exception_rendered_once (h : Heap) (o : Opts) (hgf : groupFree h) (root : ExcId) (fromDec : Bool)
+    (budget : Nat) (hb : h.length < budget) (out : List Piece)
+    (hout : formatException h o budget root fromDec = .ok out) :
+    (out.filterMap Piece.excId?).Nodup := by
+  rw [chain_order_eq_standard h o hgf root fromDec budget hb] at hout
+  cases hout
+  exact stdFormat_excIds_nodup h o root fromDec
+
+/-- **report_closed_under_chaining** – the cycle guard never drops a chained exception.  For EVERY heap (groups,
+cycles, falsy exceptions, shared members …), mode, entry point and budget, a successful report
+(1) contains the logged exception; (2) with every truthy exception it contains, contains its `__cause__`;
+(3) with every truthy exception without cause whose context is not suppressed, contains its `__context__`
+(ids without an exception behind them aside).  So an exception is skipped by `id(…) not in seen` only when the
+report shows it anyway. -/
+theorem report_closed_under_chaining (h : Heap) (o : Opts) (budget : Nat) (root : ExcId) (fromDec : Bool)
+    (out : List Piece) (hout : formatException h o budget root fromDec = .ok out) :
+    (∀ x, h[root]? = some x → Rendered out root) ∧
+    (∀ i x, Rendered out i → h[i]? = some x → x.truthy = true →
+      (∀ c y, x.cause = some c → h[c]? = some y → Rendered out c) ∧
+      (x.cause = none → x.suppress = false → ∀ d y, x.context = some d → h[d]? = some y → Rendered out d)) := by
+  unfold formatException at hout
+  split at hout
+  · rename_i ps s hf
+    simp at hout; subst hout
+    obtain ⟨hcl, hroot⟩ := fmt_closed h o budget [] root true fromDec 0 ps s hf
+    have hmem := fmt_ids_mem h o budget [] root true fromDec 0 ps s hf
+    have hall : ∀ i ∈ s, Rendered ps i ∧ LinksIn h i s := by
+      intro i hi
+      rcases hcl i hi with h0 | h1
+      · simp at h0
+      · exact h1
+    refine ⟨fun x hx => (hroot x hx).2.1, ?_⟩
+    intro i x hr hx ht
+    have his : i ∈ s := hmem i ((rendered_iff ps i).1 hr)
+    obtain ⟨l1, l2⟩ := (hall i his).2 x hx ht
+    exact ⟨fun c y hc hy => (hall c (l1 c y hc hy)).1, fun hn hs d y hd hy => (hall d (l2 hn hs d y hd hy)).1⟩
+  · simp at hout
+
+/-- non-vacuity: in the three-cycle 0 → 1 → 2 → 0 (through `__cause__`) logged at 0 every exception is rendered once -/
+example :
+    let x (c : Nat) : Exn := { truthy := true, cause := some c, context := none, suppress := true, group := none,
+                               tb := [], parents := [] }
+    ((formatException [x 1, x 2, x 0] plainOpts 5 0 false).toOption.getD []).filterMap Piece.excId? = [2, 1, 0] := by
+  decide
+
+/-! ### layout of a flat exception group -/
+
+/-- **flat_group_layout**: a logged exception group without chain links whose members are plain exceptions
+without chain links (any number of them, any tracebacks, any mode and entry point) is rendered as: the group's own
+frames and closing lines one level in (`+`-prefixed intro), then for the first `groupWidth` (15) members, in the
+order of `exceptions`, the separator numbered 1, 2, … followed by the member's frames and closing lines two levels
+in; if there are more members, the `...` separator and "and k more" with k = len − 15; then one closing line.
+This is the layout of `traceback.TracebackException.format` (`max_group_width = 15`). -/
+theorem flat_group_layout (h : Heap) (o : Opts) (b : Nat) (root : ExcId) (x : Exn) (hx : h[root]? = some x)
+    (ms : List ExcId) (hg : x.group = some ms) (hc : x.cause = none) (hcx : x.context = none)
+    (hleaf : ∀ m ∈ ms, ∃ y, h[m]? = some y ∧ Leaf y) (fromDec : Bool) :
+    formatException h o (b + 3) root fromDec = .ok (
+      renderOwn o root x true fromDec 1 ++
+      ((ms.take Gen.groupWidth).zipIdx 1).flatMap
+        (fun p => Piece.ruler (some p.2) (p.2 == 1) 1 :: ownOf h o p.1 2) ++
+      (if Gen.groupWidth < ms.length then [Piece.ruler none false 1, Piece.more (ms.length - Gen.groupWidth) 2] else []) ++
+      [Piece.groupEnd 1]) := by
+  obtain ⟨s, hs⟩ := fmt_flat_root_group h o b root x true fromDec hx ms hg hc hcx hleaf
+  have hfp := flatPieces_closed h o 1 ms.length ms 1 (by omega) (by omega)
+  simp only [Nat.add_sub_cancel] at hfp
+  simp only [formatException, hs, hfp, List.append_assoc]
+
+/-- non-vacuity: a group of two leaves -/
+example :
+    let leaf : Exn := { truthy := true, cause := none, context := none, suppress := false, group := none, tb := [], parents := [] }
+    let g : Exn := { leaf with group := some [1, 2] }
+    formatException [g, leaf, leaf] plainOpts 3 0 false =
+      .ok [Piece.pfx, Piece.excOnly 0 1, Piece.ruler (some 1) true 1, Piece.excOnly 1 2, Piece.ruler (some 2) false 1,
+           Piece.excOnly 2 2, Piece.groupEnd 1] := by rfl
+
+/-! ### folding of repeated frames loses nothing -/
+
+/-- **folding_loses_no_frame**: reading a folded frame list back – every `[Previous line repeated n more times]`
+expanded into n further copies of the frame line above it, value lines skipped – gives exactly the extracted
+frames (file, line, function, catch mark), in order and with multiplicity, in every mode.  (`folded_frames_in_order`
+only said "a subsequence"; this is what oracle 5 of the harness checks on real reports.) -/
+theorem folding_loses_no_frame (o : Opts) (d : Nat) (fs : List Shown) :
+    expandFolded none (foldFrames o d none 0 fs) = fs.map Shown.key := by
+  simpa [pendingRepeats] using expandFolded_foldFrames o d fs none 0 (fun _ => rfl)
+
+/-- hence: the frame lines of one exception in a report, repeats expanded, are the frames the property names -/
+theorem report_frames_are_the_property_frames (o : Opts) (d : Nat) (isFirst fromDec : Bool) (tb parents : List Frame) :
+    (expandFolded none (foldFrames o d none 0 (extractLoop o isFirst fromDec tb parents))).map
+        (fun k => (k.1, k.2.1, k.2.2.1)) =
+      (if tb.isEmpty || limitBlocks o.limit then []
+       else applyLimit o.limit (callerFrames o isFirst fromDec parents ++ visible tb)).map
+        (fun f => (f.info.file, f.info.line, f.info.func)) := by
+  rw [folding_loses_no_frame, ← loop_frames_are_traceback_frames_in_order]
+  simp [List.map_map, Function.comp_def, Shown.key]
+
+/-- non-vacuity: six identical frames are shown as three + "repeated 3 more times", and read back as six -/
+example :
+    let f : Shown := ⟨{ info := ⟨"f.py".toList, 7, "rec".toList, []⟩, hidden := false, vals := [] }, false⟩
+    let o : Opts := { backtrace := false, diagnose := false, colorize := false, limit := none, maxLen := 128 }
+    (foldFrames o 0 none 0 (List.replicate 6 f)).length = 4 ∧
+    (expandFolded none (foldFrames o 0 none 0 (List.replicate 6 f))).length = 6 := by decide
+
+/-! ### the closing line: the one place where `__str__` of the exception object runs -/
+
+/-- **closing_line_never_fails**: whatever `str(exc_value)` does – returns anything or raises any `Exception` –
+and in every mode, the closing-line block of `_format_exception` completes (F11 was the absence of this guard) -/
+theorem closing_line_never_fails (diagnose framesNonEmpty finalSourceNonEmpty : Bool) (x : ExcObj) :
+    ∃ b, assertSuffix diagnose framesNonEmpty finalSourceNonEmpty x = .ok b := by
+  unfold assertSuffix assertSuffixWith
+  split
+  · cases hs : x.str <;> simp [hasMessageWith, hs, Gen.strGuarded]
+  · exact ⟨false, rfl⟩
+
+/-- **closing_line_is_standard_unless**: the closing lines are `traceback.format_exception_only` verbatim except in
+exactly one circumstance – `diagnose` on, at least one frame shown, an `AssertionError` (subclass), a non-empty
+source line of the last frame, and `str(exc)` returning the empty string; in particular always with
+`diagnose = false`, and for every exception whose `__str__` raises -/
+theorem closing_line_is_standard_unless (diagnose framesNonEmpty finalSourceNonEmpty : Bool) (x : ExcObj) :
+    assertSuffix diagnose framesNonEmpty finalSourceNonEmpty x = .ok true ↔
+      (diagnose = true ∧ framesNonEmpty = true ∧ x.isAssertion = true ∧ finalSourceNonEmpty = true ∧ x.str = .ok []) := by
+  obtain ⟨a, s⟩ := x
+  cases s with
+  | error e =>
+    cases diagnose <;> cases framesNonEmpty <;>
+      simp [assertSuffix, assertSuffixWith, hasMessageWith, Gen.strGuarded, Gen.closingGuard, Gen.assertAppend,
+        Gen.hasMessageOnError]
+  | ok t =>
+    cases diagnose <;> cases framesNonEmpty <;> cases a <;> cases finalSourceNonEmpty <;> cases t <;>
+      simp [assertSuffix, assertSuffixWith, hasMessageWith, Gen.closingGuard, Gen.assertAppend]
+
+theorem closing_line_standard_without_diagnose (framesNonEmpty finalSourceNonEmpty : Bool) (x : ExcObj) :
+    assertSuffix false framesNonEmpty finalSourceNonEmpty x = .ok false := by
+  simp [assertSuffix, assertSuffixWith, Gen.closingGuard]
+
+/-- the refuted shape (F11, mutant m10: `str(exc_value)` outside the `try`): a raising `__str__` escapes from the
+formatter as soon as `diagnose` is on and a frame is shown – for every error and every kind of exception -/
+theorem unguarded_str_escapes (finalSourceNonEmpty isAssertion : Bool) (e : Err) :
+    assertSuffixWith false true true finalSourceNonEmpty ⟨isAssertion, .error e⟩ = .error e ∧
+    assertSuffixWith true true true finalSourceNonEmpty ⟨isAssertion, .error e⟩ = .ok false := by
+  simp [assertSuffixWith, hasMessageWith, Gen.closingGuard, Gen.assertAppend, Gen.hasMessageOnError]
+
+/-- every call of `repr` / `str` / `ascii` / `format` / `hash` on an object inside `ExceptionFormatter` sits in the
+body of a `try … except Exception` (regenerated from the AST of the whole class) -/
+theorem user_calls_guarded : Gen.userCallsGuarded = true ∧ Gen.strGuarded = true ∧ Gen.reprGuarded = true := by decide
+
+/-- non-vacuity: a bare `assert x` under diagnose gets its source appended, `assert x, "msg"` does not -/
+example : assertSuffix true true true ⟨true, .ok []⟩ = .ok true ∧
+    assertSuffix true true true ⟨true, .ok "msg".toList⟩ = .ok false := by constructor <;> rfl
 
 end C13
